@@ -40,7 +40,9 @@ Definition coerce_field (coerce_ty : ty -> list pkey -> pyval -> res cres)
   | Some fv => bind (coerce_ty (in_type f) (path ++ [KName (in_name f)]) fv) (fun r => Ok (Some r))
   | None =>
       match in_default f with
-      | Some d => bind (literal (in_type f) d) (fun dv => Ok (Some (dv, [])))
+      | Some d => bind (literal (in_type f) d) (fun dv =>
+                    if is_undef dv then Ok (Some (PNone, [(EInvalidDefault, path ++ [KName (in_name f)])]))
+                    else Ok (Some (dv, [])))
       | None =>
           if is_non_null (in_type f)
           then Ok (Some (PNone, [(EFieldRequired, path ++ [KName (in_name f)])]))
